@@ -78,6 +78,13 @@ def rule_range_kinds(ctx: Ctx) -> None:
             # clause 3: every per-label list comes from the normaliser
             for k, srckey in SRC.items():
                 v = S(d[k]) if k in d else "MISSING"
+                given = nn(srckey)
+                if k in ("max_matchable_radii", "min_point_numbers", "confidence_threshold_list") and given is not None:
+                    is_none_val = v == "None" or v == f"{CFG}.get('{srckey}')" and given is True
+                    if (k, "iff", given) not in norm_checked:
+                        norm_checked.add((k, "iff", given))
+                        ctx.check(is_none_val == bool(given), "C15-normalised", "_extract_params", f"{k}:none-iff-absent:{int(bool(given))}",
+                                  f"`{srckey}` {'absent' if given else 'given'} but the exposed `{k}` is `{v[:80]}`; the list is None exactly when the parameter is absent, otherwise normalised", fi=fi)
                 if v == "None" or (v == f"{CFG}.get('{srckey}')" and nn(srckey) is True):
                     continue
                 want = f"set_thresholds({CFG}.get('{srckey}'),len(set_target_lists({CFG}.get('target_labels'),self.label_converter)),False)"
@@ -169,6 +176,10 @@ def rule_frame_configs(ctx: Ctx) -> None:
         for k in LISTS + ["min_point_numbers", "confidence_threshold_list"]:
             v = st.get(f"self.{k}")
             ctx.require(v is not None, f"CriticalObjectFilterConfig.__init__: self.{k} not assigned on a path")
+            isn = next((vv for kk, vv in p.facts.items() if S(kk) == f"none:{k}"), None)
+            if isn is not None:
+                ctx.check((v == "None") == bool(isn), "C15-normalised", "CriticalObjectFilterConfig.__init__", f"{k}:none-iff-absent:{int(bool(isn))}",
+                          f"`{k}` {'not given' if isn else 'given'} but self.{k} = `{v[:60]}`; the list is None exactly when it was not given, otherwise validated", fi=fi)
             if v == "None":
                 continue
             ctx.check(v == f"check_thresholds({k},{n})", "C15-normalised", "CriticalObjectFilterConfig.__init__", k,
@@ -186,6 +197,10 @@ def rule_frame_configs(ctx: Ctx) -> None:
                   f"self.target_labels = `{st.get('self.target_labels')}`", fi=fp)
         for k in ("matching_threshold_list", "confidence_threshold_list"):
             v = st.get(f"self.{k}")
+            isn = next((vv for kk, vv in p.facts.items() if S(kk) == f"none:{k}"), None)
+            ctx.require(isn is not None, f"PerceptionPassFailConfig.__init__: the `{k} is None` test was not recognised")
+            ctx.check(v is not None and (v == "None") == bool(isn), "C15-normalised", "PerceptionPassFailConfig.__init__", f"{k}:none-iff-absent:{int(bool(isn))}",
+                      f"`{k}` {'not given' if isn else 'given'} but self.{k} = `{str(v)[:60]}`; the list is None exactly when it was not given, otherwise validated", fi=fp)
             if v in (None, "None"):
                 continue
             ctx.check(v == f"check_thresholds({k},{n})", "C15-normalised", "PerceptionPassFailConfig.__init__", k, f"self.{k} = `{v[:100]}`; expected check_thresholds({k}, len(target_labels))", fi=fp)
@@ -197,11 +212,56 @@ def rule_frame_configs(ctx: Ctx) -> None:
         for k in ("center_distance_thresholds", "plane_distance_thresholds", "iou_2d_thresholds", "iou_3d_thresholds"):
             v = st.get(f"self.{k}")
             ctx.require(v is not None, f"_MetricsConfigBase.__init__: self.{k} not assigned")
+            given = next((vv for kk, vv in p.facts.items() if S(kk) == f"truthy:{k}"), None)
+            ctx.require(given is not None, f"_MetricsConfigBase.__init__: the `{k}` presence test was not recognised")
+            if (k, v, given) not in seen:
+                ctx.check((v == "[]") == (not given), "C15-normalised", "_MetricsConfigBase.__init__", f"{k}:empty-iff-absent:{int(bool(given))}",
+                          f"`{k}` {'given' if given else 'absent / empty'} but self.{k} = `{v[:60]}`; thresholds are normalised exactly when given", fi=fm)
+                seen.add((k, v, given))
             if (k, v) in seen:
                 continue
             seen.add((k, v))
             ctx.check(v in ("[]", f"set_thresholds({k},len(target_labels),True)"), "C15-normalised", "_MetricsConfigBase.__init__", f"{k}:{'empty' if v == '[]' else 'set'}",
                       f"self.{k} = `{v[:100]}`; metric thresholds must be set_thresholds(value, len(target_labels), True) (or [] when absent)", fi=fm)
+
+
+def rule_score_config(ctx: Ctx) -> None:
+    """MetricsScoreConfig: which metric configurations a task gets - detection for detection tasks, tracking + detection for tracking tasks, classification for
+    classification; each after _check_parameters(<that config class>, cfg) (unknown metric parameters are rejected BEFORE the config is built)."""
+    fi = ctx.func("evaluation.metrics.metrics_score_config.MetricsScoreConfig.__init__")
+    T = "self.evaluation_task"
+    WANT = {"det": ({"detection_config": "DetectionMetricsConfig"}, "DetectionMetricsConfig"), "trk": ({"tracking_config": "TrackingMetricsConfig", "detection_config": "DetectionMetricsConfig"}, "TrackingMetricsConfig"),
+            "cls": ({"classification_config": "ClassificationMetricsConfig"}, "ClassificationMetricsConfig")}
+    rows = set()
+    for p in enum_paths(ctx, fi):
+        f = {S(k): v for k, v in p.facts.items()}
+
+        true_members = [k.split("EvaluationTask.")[1] for k, v in f.items() if k.startswith(f"eq:{T}==EvaluationTask.") and v]
+        ctx.require(any(k.startswith(f"eq:{T}==EvaluationTask.") for k in f) and len(true_members) <= 1, "MetricsScoreConfig.__init__: task dispatch not recognised")
+        member = true_members[0] if true_members else None
+        kind = {"DETECTION2D": "det", "DETECTION": "det", "TRACKING2D": "trk", "TRACKING": "trk", "PREDICTION": "prd", "CLASSIFICATION2D": "cls"}.get(member, "other")
+        if member is not None and kind == "other":
+            kind = f"other:{member}"
+        rows.add(kind)
+        st = {strip_v(e.recv): S(e.value) for e in p.effects if e.kind == "store"}
+        chk = [S(e.args[0]) for e in p.effects if e.kind == "call" and e.name == "_check_parameters" and e.args]
+        if kind == "prd":
+            ctx.check(bool(p.exit) and p.exit[0] == "raise", "C15-score-config", "MetricsScoreConfig.__init__", "prediction", "the prediction task does not raise NotImplementedError", fi=fi)
+            continue
+        if kind.startswith("other"):
+            built = [a for a in ("detection_config", "tracking_config", "classification_config") if st.get(f"self.{a}", "None") != "None"]
+            ctx.check(not built, "C15-score-config", "MetricsScoreConfig.__init__", kind, f"for task {member or '(none of the scored tasks)'} the configs {built} are built", fi=fi)
+            continue
+        want, cls_checked = WANT[kind]
+        for attr in ("detection_config", "tracking_config", "classification_config"):
+            v = st.get(f"self.{attr}")
+            w = f"{want[attr]}(**cfg)" if attr in want else "None"
+            ctx.check(v == w, "C15-score-config", "MetricsScoreConfig.__init__", f"{member}:{attr}", f"for task {member} self.{attr} = `{v}`; expected `{w}`", fi=fi, expected=w, found=str(v))
+        ctx.check(chk == [cls_checked], "C15-score-config", "MetricsScoreConfig.__init__", f"{member}:checked", f"for task {member} the metric parameters are checked against {chk}; expected [{cls_checked}] (unknown parameters rejected)", fi=fi)
+        # the check precedes the construction
+        order = [(e.kind, e.name, S(strip_v(e.recv)) if e.recv else "") for e in p.effects if (e.kind == "call" and e.name == "_check_parameters") or (e.kind == "store" and S(e.value).endswith("MetricsConfig(**cfg)"))]
+        ctx.check(bool(order) and order[0][1] == "_check_parameters", "C15-score-config", "MetricsScoreConfig.__init__", f"{member}:check-first", "a metric configuration is built before the parameters are checked", fi=fi)
+    ctx.require({"det", "trk", "prd", "cls"} <= rows, f"MetricsScoreConfig.__init__: rows {sorted(rows)}")
 
 
 # expected path tables of the normaliser: {frozenset(decisions)} -> outcome
@@ -283,7 +343,8 @@ def rule_normaliser(ctx: Ctx) -> None:
                 ctx.violate("C15-normaliser", name, "flat-unchecked", f"a flat list is accepted as `{rv[:100]}` on [{p.cond_text()[:140]}] without checking that every entry is numeric (non-numeric entries must be rejected)", fi=fi)
             else:
                 rows["flat"] += 1
-                ok = rv == "[[t]*num_elementsfortinthreshold]iflen(threshold)!=num_elementselse[threshold]" or rv in ("[[t]*num_elementsfortinthreshold]", "[threshold]")
+                eqn = f.get("same:len(threshold)==num_elements")
+                ok = rv == "[[t]*num_elementsfortinthreshold]iflen(threshold)!=num_elementselse[threshold]" or (eqn is True and rv == "[threshold]") or (eqn is False and rv == "[[t]*num_elementsfortinthreshold]")
                 ctx.check(ok and not raised, "C15-normaliser", name, f"flat:{len(p.conds)}", f"a flat numeric list becomes `{rv[:120]}`", fi=fi)
         else:
             notlist = f.get("call:any([notisinstance(t,list)fortinthreshold])")
@@ -423,6 +484,7 @@ def rule_metric_params(ctx: Ctx) -> None:
 
 
 def run(ctx: Ctx) -> None:
+    ctx.run(rule_score_config)
     from rules import generic as _G
     ctx.run(_G.rule_arity, ("perception_eval.config", "perception_eval.common.threshold", "perception_eval.evaluation.metrics.config", "perception_eval.evaluation.result.perception_frame_config"), "R-ARITY", 20)
     ctx.run(rule_range_kinds)
